@@ -1250,12 +1250,15 @@ rrul_fill_mly(echs_instant_t *restrict tgt, size_t nti, rrulsp_t rr)
 
 	/* get m on track */
 	if (UNLIKELY(bui31_has_bits_p(rr->mon))) {
-		bitint_iter_t bm = 0UL;
+		unsigned int tm = (unsigned int)(m - 1);
+		size_t k;
 
-		/* check that some of the months are congruent m modulo inter */
-		while (bui31_next(&bm, rr->mon) &&
-		       ((m + 12U) - (bm - 1U)) % rr->inter);
-		if (UNLIKELY(!bm)) {
+		/* check that stepping by inter ever lands on one of the months,
+		 * the orbit of m modulo 12 has at most 12 members */
+		for (k = 0U; k < 12U && !bui31_has_bit_p(rr->mon, tm + 1U); k++) {
+			tm = (tm + rr->inter % 12U) % 12U;
+		}
+		if (UNLIKELY(k >= 12U)) {
 			goto fin;
 		}
 		/* now skip to the first instance */
